@@ -324,6 +324,9 @@ def cls_value_features(C: dict, v: dict) -> list:
                 seen[fld] = 1
             elif key in py_names:
                 out.append('python-name-key-not-input')
+                fld = [f for f in C['fs'] if f['n'] == key][0]
+                if any(q[0]['k'] == 'str' and q[0]['s'] in fld['ins'] for q in v['ps']):
+                    out.append('python-name-beside-input-name')     # the same field also under one of its input names
             else:
                 out.append('unknown-key')
         for f in C['fs']:
